@@ -188,7 +188,12 @@ def seeded_scenarios(ctx, n):
             ops.append(dict(op='close', s=0))
         elif fam == 0:  # tcp listener vs no socket
             la = rng.choice(['', '10.0.0.1', '10.0.0.2'])
-            ops += [dict(op='tcp', s=0, v=4), dict(op='bind', s=0, addr=la, port=80), dict(op='listen', s=0, backlog=5)]
+            # (one in three listeners is a dual-stack IPv6 socket: bound to the wildcard it takes IPv4 SYNs too, bound to the
+            #  v4-mapped form of a local IPv4 address it is an IPv4 listener on exactly that address)
+            dual = i % 21 >= 14
+            if dual:
+                la = ['10.0.0.1', '', '10.0.0.2'][(i // 21) % 3]
+            ops += [dict(op='tcp', s=0, v=6 if dual else 4), dict(op='bind', s=0, addr=('::ffff:' + la) if dual and la else la, port=80), dict(op='listen', s=0, backlog=5)]
             for j in range(rng.randrange(2, 6)):
                 dst = rng.choice(['10.0.0.1', '10.0.0.2'])
                 dport = rng.choice([80, 81, 8080])
@@ -254,9 +259,10 @@ def seeded_scenarios(ctx, n):
                     ops.append(dict(op='readall'))
         elif fam == 2:  # ipv6 sockets, dual stack
             ops += [dict(op='udp', s=0, v=6), dict(op='udp', s=1, v=4)]
-            if rng.random() < 0.5:
+            mapped = (i // 7) % 3 == 1          # the IPv6 socket is bound to the v4-mapped form of a local IPv4 address: an IPv4 socket on it
+            if rng.random() < 0.5 and not mapped:
                 ops.append(dict(op='setopt', s=0, opt='v6only', val=1))
-            ops.append(dict(op='bind', s=0, addr='', port=5000))
+            ops.append(dict(op='bind', s=0, addr='::ffff:10.0.0.1' if mapped else '', port=5000))
             ops.append(dict(op='bind', s=1, addr='10.0.0.1', port=5001))
             for j in range(6):
                 v = rng.choice([4, 6])
